@@ -146,6 +146,7 @@ func CmdCheck(opts Options, prop string) int {
 	if s := os.Getenv("VERIF_SEED"); s != "" {
 		seed, _ = strconv.Atoi(s)
 	}
+	proofCacheDir = filepath.Join(opts.Verif, "out", "cache")
 	e, err := Load(opts.Repo, opts.Verif)
 	if err != nil {
 		// a tree that does not load (e.g. a contract naming a function that no longer exists) loses every proof
